@@ -19,6 +19,9 @@ type KnownFinding struct {
 	What       string `json:"what"`
 	Status     string `json:"status"` // "open" findings suppress; anything else ("fixed") suppresses nothing
 	Commit     string `json:"commit,omitempty"`
+	// ReplayTemplate: the replay template that demonstrates this (open) finding; its oracle is expected to fail on
+	// the unchanged tree, so the thorough tier's oracle-sanity run leaves it out - for every property
+	ReplayTemplate string `json:"replay_template,omitempty"`
 }
 
 type KnownFile struct {
@@ -218,6 +221,11 @@ func (s *Session) report(id string, cfg *CheckConfig, dev bool, t0 time.Time, lo
 	var oracleSanity []string
 	if s.tier == "thorough" && os.Getenv("VERIF_NO_SELFTEST") == "" && nviol == 0 {
 		knownTmpl := map[string]bool{}
+		for _, kf := range known.Findings {
+			if kf.Status == "open" && kf.ReplayTemplate != "" {
+				knownTmpl[kf.ReplayTemplate] = true
+			}
+		}
 		for i, o := range failed {
 			if known.match(id, stripOrdinals(o.Name)) != nil && failedUnit[i].Con != nil {
 				knownTmpl[failedUnit[i].Con.replayFor(o.Name)] = true
